@@ -138,6 +138,33 @@ pub fn check(_ctx: &Ctx, c: &Num, acc: &mut Acc) -> Result<(), Fail> {
                         "{w:?} converts to {}, registry id is {n}",
                         usize::from(*w)
                     );
+                    // name -> number -> name through the message API, whatever
+                    // Content-Format values the message held before
+                    for prior in 0..4u8 {
+                        let mut q = Packet::new();
+                        let other = crate::props::c01::min_uint(if n == 50 { 60 } else { 50 });
+                        let same_width = crate::props::c01::min_uint(if n < 256 { (n as u64 + 1) % 256 } else { n as u64 ^ 1 });
+                        match prior {
+                            0 => {}
+                            1 => q.add_option(CoapOption::ContentFormat, other.clone()),
+                            2 => {
+                                q.add_option(CoapOption::ContentFormat, other.clone());
+                                q.add_option(CoapOption::ContentFormat, same_width.clone());
+                            }
+                            _ => {
+                                q.add_option(CoapOption::ContentFormat, same_width.clone());
+                                q.add_option(CoapOption::ContentFormat, other.clone());
+                                q.add_option(CoapOption::ContentFormat, same_width.clone());
+                            }
+                        }
+                        q.set_content_format(*w);
+                        let back = q.get_content_format();
+                        ensure!(
+                            back == Some(*w),
+                            "c05-content-format-getter",
+                            "set_content_format({w:?}) on a message that held {prior} Content-Format value(s): get_content_format() = {back:?}"
+                        );
+                    }
                     // on the wire: Content-Format carries the registry id as a uint
                     let mut p = Packet::new();
                     p.set_content_format(*w);
@@ -251,6 +278,21 @@ pub fn check(_ctx: &Ctx, c: &Num, acc: &mut Acc) -> Result<(), Fail> {
                 "get_code after set_code({text:?}) returned {:?}",
                 h.get_code()
             );
+            // set_code from every previous code
+            for prev in 0..=255u8 {
+                let mut h = Header::new();
+                h.code = MessageClass::from(prev);
+                if let Err(msg) = catch(|| h.set_code(&text)) {
+                    fail!("c05-set-code-panic", "set_code({text:?}) on a header holding {prev:#04x} panicked: {msg}");
+                }
+                ensure!(
+                    u8::from(h.code) == b && h.get_code() == text,
+                    "c05-set-code",
+                    "set_code({text:?}) on a header holding code {prev:#04x} stored {:#04x} ({})",
+                    u8::from(h.code),
+                    h.get_code()
+                );
+            }
             // encoded header byte
             let mut p = Packet::new();
             p.header.code = got;
